@@ -6,6 +6,7 @@ import (
 	"go/constant"
 	"go/token"
 	"go/types"
+	"os"
 	"sort"
 	"strconv"
 	"strings"
@@ -201,9 +202,7 @@ func (p *Program) Grammar() *grammar {
 	pkg := p.PQL
 	info := pkg.TypesInfo
 	for _, t := range p.Implementers(p.Iface(p.Parser, "Expr")) {
-		if n := TypeStr(t); n != "*parser.ParenExpr" {
-			g.exprAll = append(g.exprAll, n)
-		}
+		g.exprAll = append(g.exprAll, TypeStr(t))
 	}
 	sort.Strings(g.exprAll)
 	g.kf = p.knownFunctions()
@@ -326,9 +325,6 @@ func (c *grammarClient) kindsOf(e *Engine, st *State) []string {
 	}
 	out := []string{}
 	for _, k := range base {
-		if k == "*parser.ParenExpr" {
-			continue
-		}
 		if k != "*parser.CallExpr" {
 			out = append(out, k)
 			continue
@@ -368,6 +364,20 @@ func (c *grammarClient) kindsOf(e *Engine, st *State) []string {
 }
 
 func (c *grammarClient) PostAssign(e *Engine, st *State, lhs, rhs []ast.Expr, _ ast.Stmt) *State {
+	changed := false
+	// x = unparen(x): a helper all of whose returns are known not to be a ParenExpr
+	if len(rhs) == 1 && len(lhs) == 1 {
+		if call, ok := ast.Unparen(rhs[0]).(*ast.CallExpr); ok {
+			if f := Callee(e.Info, call); f != nil && c.g.p.stripsParens(f) {
+				if k := e.CanonSt(st, lhs[0]); k.OK {
+					if n := e.assumeTypeKeyStr(st, k, []string{"*parser.ParenExpr"}, false, false); n != nil {
+						st = n
+						changed = true
+					}
+				}
+			}
+		}
+	}
 	// f := initKnownFunctions()[x.Func.Name]
 	if len(rhs) == 1 && len(lhs) >= 1 {
 		if ix, ok := ast.Unparen(rhs[0]).(*ast.IndexExpr); ok {
@@ -385,6 +395,9 @@ func (c *grammarClient) PostAssign(e *Engine, st *State, lhs, rhs []ast.Expr, _ 
 				return st.WithExt("last:"+k.Key, "-1").WithExt("depth:"+k.Key, "0,0,0")
 			}
 		}
+	}
+	if changed {
+		return st
 	}
 	return nil
 }
@@ -666,7 +679,7 @@ func (c *grammarClient) argKinds(e *Engine, st *State, arg ast.Expr) []string {
 	for _, k := range base {
 		if k == "*parser.CallExpr" {
 			out = append(out, c.expandCall()...)
-		} else if k != "*parser.ParenExpr" {
+		} else {
 			out = append(out, k)
 		}
 	}
@@ -773,4 +786,50 @@ func (g *grammar) xParamOf(fd *ast.FuncDecl) types.Object {
 		}
 	}
 	return nil
+}
+
+// stripsParens: fn is a module function (Expr) Expr every return of which is known not to be a *ParenExpr.
+type stripClient struct {
+	BaseClient
+	ok   bool
+	seen bool
+}
+
+func (c *stripClient) Return(e *Engine, st *State, ret *ast.ReturnStmt) {
+	if e.Lit != nil || ret == nil || len(ret.Results) != 1 {
+		c.ok = false
+		return
+	}
+	c.seen = true
+	f := e.FactOf(st, ret.Results[0])
+	if f == nil || !(hasStr(f.TyOut, "*parser.ParenExpr") || (f.TyIn != nil && !hasStr(f.TyIn, "*parser.ParenExpr"))) {
+		c.ok = false
+	}
+}
+
+func (p *Program) stripsParens(fn *types.Func) bool {
+	if p.strips == nil {
+		p.strips = map[*types.Func]bool{}
+	}
+	if v, ok := p.strips[fn]; ok {
+		return v
+	}
+	p.strips[fn] = false
+	sig := fn.Type().(*types.Signature)
+	if fn.Pkg() == nil || fn.Pkg().Path() != PathPQL || sig.Params().Len() != 1 || sig.Results().Len() != 1 ||
+		TypeStr(sig.Params().At(0).Type()) != "parser.Expr" || TypeStr(sig.Results().At(0).Type()) != "parser.Expr" {
+		return false
+	}
+	fd := p.FuncDecl(p.PQL, fn.Name())
+	if fd == nil {
+		return false
+	}
+	c := &stripClient{ok: true}
+	e := NewEngine(p, p.PQL, fd, c)
+	e.Run(nil)
+	p.strips[fn] = c.ok && c.seen && len(e.Errs) == 0
+	if os.Getenv("PQLCHECK_DEBUG") != "" {
+		fmt.Fprintf(os.Stderr, "stripsParens(%s) = %v (ok=%v seen=%v errs=%v)\n", fn.Name(), p.strips[fn], c.ok, c.seen, e.Errs)
+	}
+	return p.strips[fn]
 }
